@@ -633,6 +633,9 @@ def convert_memo(ops, fn_info):
         if kind != 'memo':
             if kind == 'unknown':
                 st['unknown_fn'] += 1
+                nm = info(op[1])[0]
+                if nm not in st.setdefault('unknown_names', []) and len(st['unknown_names']) < 5:
+                    st['unknown_names'].append(nm)
             i += 1
             continue
         d = info(op[1])[2]
@@ -940,8 +943,10 @@ def direct_exec(ctx, L):
     stats = dict(refused=0, pushes=0)
     # (a) exhaustive small scope under small (patched) limits
     fd4 = [(_Node(0), False, False), (_Node(1), False, False), (_Node(2), True, False), (_Node(3), False, True)]
-    alpha = [('push', 0), ('push', 1), ('push', 2), ('push', 3), ('pop',)]
-    for sm, k in (((2, 3, 2, 1), ctx.n(5, 6)), ((3, 4, 1, 2), ctx.n(4, 5))):
+    alpha5 = [('push', 0), ('push', 1), ('push', 2), ('push', 3), ('pop',)]
+    alpha3 = [('push', 0), ('push', 3), ('pop',)]
+    for sm, k, alpha in (((2, 3, 2, 1), ctx.n(4, 6), alpha5), ((3, 2, 1, 2), ctx.n(4, 5), alpha5),
+                         ((2, 4, 1, 1), ctx.n(6, 8), alpha3)):
         Ls = _small_L(L, *sm)
         with _patched_limits(Ls):
             for seq in itertools.product(alpha, repeat=k):
@@ -951,7 +956,7 @@ def direct_exec(ctx, L):
                 stats['refused'] += nref
                 stats['pushes'] += sum(1 for o in seq if o[0] == 'push')
     # (b) long random walks under the real limits
-    for ci in range(ctx.n(16, 160)):
+    for ci in range(ctx.n(12, 160)):
         prof = ctx.rng.choice(['deep', 'wide', 'hot', 'rec', 'mixed'])
         nf = {'deep': 20, 'wide': 6, 'hot': 2, 'rec': 1, 'mixed': 5}[prof]
         fds = [(_Node(i), ctx.rng.random() < 0.12, ctx.rng.random() < 0.15) for i in range(nf)]
@@ -972,7 +977,7 @@ def direct_exec(ctx, L):
         stats['refused'] += nref
         stats['pushes'] += sum(1 for o in ops if o[0] == 'push')
     # (c) random small limits
-    for ci in range(ctx.n(250, 3000)):
+    for ci in range(ctx.n(200, 3000)):
         Ls = _small_L(L, ctx.rng.randint(0, 6), ctx.rng.randint(0, 12), ctx.rng.randint(0, 4), ctx.rng.randint(0, 3))
         nf = ctx.rng.randint(1, 4)
         fds = [(_Node(i), ctx.rng.random() < 0.15, ctx.rng.random() < 0.25) for i in range(nf)]
@@ -994,7 +999,7 @@ def direct_exec(ctx, L):
             ctx.violation('obligation', dict(
                 what='correspondence push_execution/pop_execution: a decision or counter of the real '
                      'ExecutionRecursionDetector differs from the model', stream='direct-exec',
-                ops=[list(o) for o in keys[i][2]][:80], kind=keys[i][0], case=cases[i][:3000]), nofail=True)
+                ops=[list(o) for o in keys[i][2]][:80], seq_kind=keys[i][0], case=cases[i][:3000]), nofail=True)
     ctx.jobs.add('direct_exec', fn, cases, max(50, len(cases) // 8 + 1), on_fail)
 
 
@@ -1133,7 +1138,7 @@ def direct_stmt(ctx):
         return g_list(items, str, 'sev * option bool * list N')
 
     alpha = [('enter', 0), ('enter', 1), ('enter', 2), ('exit',), ('exitexc',)]
-    k = ctx.n(6, 7)
+    k = ctx.n(5, 7)
 
     def rec(seq, depth):
         if len(seq) == k:
@@ -1715,25 +1720,42 @@ def _query_task(task):
     return digest_query(r, task['L'])
 
 
+_DEV_SEEN = {}
+
+
+def report(ctx, sig, data, what, per_class=3):
+    """ctx.deviation, but at most `per_class` inputs per (stream, class) unless the deviation is a
+    listed known finding (those are all counted)."""
+    known = any(all(sig.get(a) == b for a, b in k['matcher'].items()) for k in ctx.known)
+    if not known:
+        key = (sig.get('stream'), sig.get('cls'), sig.get('exc'), (sig.get('what') or '')[:24])
+        _DEV_SEEN[key] = _DEV_SEEN.get(key, 0) + 1
+        if _DEV_SEEN[key] > per_class:
+            sup = ctx.cov.setdefault('distribution', {}).setdefault('further_inputs_of_a_reported_class', {})
+            sup[str(key)] = sup.get(str(key), 0) + 1
+            return 'suppressed'
+    return ctx.deviation(sig, data, what)
+
+
 def classify_crash(ctx, stream, task_desc, r, extra=None):
     """RecursionError / hang / budget problems are C15 deviations; other exception types are
     not this property's subject (C01) and are only counted."""
     sig = r.get('sig') or {}
     if r.get('hang') or r.get('crashed'):
-        ctx.deviation(dict(stream=stream, exc=sig.get('exc'), cls='hang'), dict(input=task_desc, error=sig),
+        report(ctx, dict(stream=stream, exc=sig.get('exc'), cls='hang'), dict(input=task_desc, error=sig),
                       'the query did not return within the watchdog time (or killed its process)')
         return 'hang'
     if sig.get('exc') == 'RecursionError':
         m = dict(stream=stream, exc='RecursionError', repeating=sig.get('repeating'))
         if extra:
             m.update(extra)
-        ctx.deviation(m, dict(input=task_desc, error=sig), 'the query raised RecursionError')
+        report(ctx, m, dict(input=task_desc, error=sig), 'the query raised RecursionError')
         return 'recursion'
     return 'other'
 
 
 def stream_queries(ctx, L):
-    nprog = ctx.n(30, 300)
+    nprog = ctx.n(24, 300)
     per_prog = ctx.n(12, 40)
     tasks, progs = [], []
     for pi in range(nprog):
@@ -1777,6 +1799,9 @@ def stream_queries(ctx, L):
         agg['memo_default_hits'] += st['memo']['default_hits']
         agg['infer_refused'] += st['infer']['refused']
         agg['unknown_fn_ops'] += st['memo']['unknown_fn']
+        for nm in st['memo'].get('unknown_names', []):
+            if nm not in agg.setdefault('unknown_fns', []):
+                agg['unknown_fns'].append(nm)
         agg['late_default'] += st['memo']['late_default']
         agg['events'] += sum(r['n'].values())
         agg['max_exec_depth'] = max(agg['max_exec_depth'], st['exec']['maxdepth'])
@@ -1787,10 +1812,10 @@ def stream_queries(ctx, L):
                                              stream='queries'), nofail=True)
             return
         if r['reclimit'] != DOCUMENTED['setrecursionlimit']:
-            ctx.deviation(dict(stream='queries', cls='interpreter-recursion-limit'), dict(limit=r['reclimit']),
+            report(ctx, dict(stream='queries', cls='interpreter-recursion-limit'), dict(limit=r['reclimit']),
                           'sys.getrecursionlimit() is %d while a query runs (documented: 3000)' % r['reclimit'])
         for p in r['problems']:
-            ctx.deviation(dict(stream='queries', cls='budget', what=p.split(' (')[0][:60]), dict(input=desc, problem=p, stats=st),
+            report(ctx, dict(stream='queries', cls='budget', what=p.split(' (')[0][:60]), dict(input=desc, problem=p, stats=st),
                           'bound of the budget violated on a real query: ' + p)
         cases.append(r['case'])
         metas.append(desc)
@@ -1976,12 +2001,12 @@ def stream_scaling(ctx, L, intensify=False):
                                extra=dict(cls='deep-acyclic-chain' if overflow_predicted else 'unpredicted'))
                 continue
             for p in r.get('problems', []):
-                ctx.deviation(dict(stream='scaling', cls='budget', what=p.split(' (')[0][:60]), dict(input=desc, problem=p),
+                report(ctx, dict(stream='scaling', cls='budget', what=p.split(' (')[0][:60]), dict(input=desc, problem=p),
                               'bound of the budget violated: ' + p)
             S = count_scopes(t['src'])
             bound = DOCUMENTED['infer_cap'] * S
             if r['steps'] > bound:
-                ctx.deviation(dict(stream='scaling', cls='steps-above-linear-bound'), dict(input=desc, steps=r['steps'], bound=bound),
+                report(ctx, dict(stream='scaling', cls='steps-above-linear-bound'), dict(input=desc, steps=r['steps'], bound=bound),
                               '%d node-inference steps > 300*S = %d' % (r['steps'], bound))
             if not t.get('probe'):
                 steps[n] = r['steps']
@@ -1992,7 +2017,7 @@ def stream_scaling(ctx, L, intensify=False):
                 ratio = steps[2 * n] / steps[n]
                 worst = max(worst, ratio)
                 if ratio > 4.6:
-                    ctx.deviation(dict(stream='scaling', cls='super-polynomial-growth'),
+                    report(ctx, dict(stream='scaling', cls='super-polynomial-growth'),
                                   dict(family=fam, n=n, steps_n=steps[n], steps_2n=steps[2 * n], all=steps),
                                   'node-inference steps grow by x%.1f from n=%d to n=%d (more than quadratic)' % (ratio, n, 2 * n))
         table[fam] = dict(steps={str(k): v for k, v in sorted(steps.items()) if k in (1, 4, 16, 32, 64)},
@@ -2037,9 +2062,9 @@ def run(ctx):
     ctx.cov['fingerprints'] = common.fingerprint(FP)
     ctx.cov['rule'] = (
         'limits: constants parsed from recursion.py/syntax_tree.py/api/__init__.py; '
-        'direct: exhaustive op sequences (5 ops, length 5 quick/6 thorough, two small limit sets) + long random walks at the real limits + '
+        'direct: exhaustive op sequences (5 ops x length 4, 3 ops x length 6; longer in thorough; three small limit sets) + long random walks at the real limits + '
         'random small limits on the real ExecutionRecursionDetector; scripted call trees through execution_recursion_decorator; '
-        'exhaustive well-bracketed enter/exit/exit-with-exception sequences (length 6/7) + random ones on execution_allowed; '
+        'exhaustive well-bracketed enter/exit/exit-with-exception sequences (length 5 quick / 7 thorough) + random ones on execution_allowed; '
         'scripted re-entrant call trees on every _memoize_default variant; scripted self-consuming generators on the generator cache; '
         'counter sequences across the cap (300, 30000 for builtins) on _limit_value_infers; '
         'queries: seeded cyclic definition graphs (3..40 definitions, 22 kinds of edges) x sampled uses x 5 queries, fresh Script each; '
@@ -2058,7 +2083,9 @@ def run(ctx):
     ctx.jobs = Jobs()
     n_quick = ctx.n
     if changed or differ:
-        ctx.n = lambda q, t: t         # a modelled definition changed: thorough volume for the direct streams
+        # a modelled definition (or a limit) changed: three times the random volume for the direct streams
+        # (small numbers are enumeration depths: those stay)
+        ctx.n = lambda q, t: q if t <= 8 else min(t, 3 * q)
     for name, f in (('direct_exec', lambda: direct_exec(ctx, L)), ('direct_decorator', lambda: direct_decorator(ctx, L)),
                     ('direct_stmt', lambda: direct_stmt(ctx)), ('direct_memo', lambda: direct_memo(ctx)),
                     ('direct_gen', lambda: direct_gen(ctx)), ('direct_infer', lambda: direct_infer(ctx, L, None))):
